@@ -112,11 +112,14 @@ def snake(ctx, n, prefill):
     ctx.case(('snake', n, prefill), sample={'snake_len': n, 'prefill': prefill})
     ctx.count('snake')
     flags, bits, refs, fin, b = S.exec_builder([], ops)
+    cells_needed = 1 + max(0, -(-(n - (1023 - prefill) // 8) // 127)) if n else 1
     if '0' in flags or fin == 'err':
         # depth > 1023 is the only legitimate reason
-        cells_needed = 1 + max(0, -(-(n - (1023 - prefill) // 8) // 127)) if n else 1
         if cells_needed <= 1024:
             ctx.fail('snake-store', f'store_snake_bytes of {n} bytes refused', inp, flags + fin, 'stored')
+        return
+    if cells_needed > 1024:
+        ctx.fail('snake-depth', f'store_snake_bytes of {n} bytes produced a chain of {cells_needed} cells (depth > 1023)', inp, 'stored', 'exception')
         return
     s = b.end_cell().begin_parse()
     if prefill:
@@ -264,6 +267,11 @@ def run(ctx):
     for n in [0, 1, 2, 126, 127, 128, 129, 253, 254, 255, 256, 381, 382, 1000, 16000] + ([130000, 129920, 130048] if ctx.thorough else []):
         for prefill in (0, 8, 3, 1016, 1023):
             snake(ctx, n, prefill)
+    # the longest chain (depth 1023 = 1024 cells) and one byte more (must be refused by end_cell's depth check)
+    snake(ctx, 127 * 1024, 0)
+    snake(ctx, 127 * 1024 + 1, 0)
+    snake(ctx, 127 * 1023, 1016)
+    snake(ctx, 127 * 1023 + 1, 1016)
     api_extras(ctx)
 
 
